@@ -182,4 +182,173 @@ pub fn check(r: &InstructionGeneratorResult, report: &mut MonitorReport) {
             format!("statement address {} outside the list of {}", bad, n),
         );
     }
+
+    // S7: abstract interpretation of the stack depths over every static path. The state
+    // is the depth, relative to the entry of the region, of the value stack, the register
+    // stack, the var-path stack, the argument states, the by-ref queue and the stashed
+    // function results. Seeds: the entry of the main module and of every procedure (all
+    // zero) and every user label (a user label is followed by TrimStacks(f, s), which
+    // *sets* the register and value depths: a label may be reached from a deeper block).
+    // Required: no path drives a depth below zero; two paths that meet agree on every
+    // depth (at a user label: on every depth that TrimStacks does not reset); at every
+    // statement start, Halt and PopRet no argument state, var path, by-ref value or
+    // function result is pending; falling into a user label happens with the depths the
+    // generator recorded for it.
+    const NS: usize = 6;
+    const NAMES: [&str; NS] = ["value", "register", "var_path", "arguments", "by_ref", "function_result"];
+    let is_user_label = |pc: usize| -> Option<(i32, i32)> {
+        if let (Some(a), Some(b)) = (ins.get(pc), ins.get(pc + 1)) {
+            if let (Instruction::Label(_), Instruction::TrimStacks(f, sd)) = (&a.element, &b.element) {
+                return Some((*f as i32, *sd as i32));
+            }
+        }
+        None
+    };
+    let stmt_starts: std::collections::HashSet<usize> = r.statement_addresses.iter().copied().collect();
+    let mut state: Vec<Option<[i32; NS]>> = vec![None; n];
+    let mut work: Vec<(usize, [i32; NS], bool)> = vec![];
+    for s0 in &starts {
+        work.push((*s0, [0; NS], false));
+    }
+    for pc in 0..n {
+        if let Some((f, sd)) = is_user_label(pc) {
+            let mut st = [0; NS];
+            st[0] = sd;
+            st[1] = f;
+            // seeded *behind* the TrimStacks
+            if pc + 2 < n {
+                work.push((pc + 2, st, false));
+            }
+        }
+    }
+    let mut s7_reported = 0;
+    while let Some((pc, st, by_fallthrough)) = work.pop() {
+        if pc >= n || s7_reported >= 3 {
+            continue;
+        }
+        let user_label = is_user_label(pc);
+        if let (Some((f, sd)), true) = (user_label, by_fallthrough) {
+            if st[0] != sd || st[1] != f {
+                s7_reported += 1;
+                push(
+                    "S7",
+                    pc,
+                    format!(
+                        "label at {} is entered from the statement before it with value depth {} and register depth {}, the generator recorded {} and {}",
+                        pc, st[0], st[1], sd, f
+                    ),
+                );
+            }
+        }
+        match &state[pc] {
+            Some(prev) => {
+                let differs = (0..NS).find(|i| {
+                    prev[*i] != st[*i] && !(user_label.is_some() && (*i == 0 || *i == 1))
+                });
+                if let Some(i) = differs {
+                    s7_reported += 1;
+                    push(
+                        "S7",
+                        pc,
+                        format!(
+                            "{} depth at pc {} depends on the path: {} on one, {} on another",
+                            NAMES[i], pc, prev[i], st[i]
+                        ),
+                    );
+                }
+                continue;
+            }
+            None => state[pc] = Some(st),
+        }
+        if stmt_starts.contains(&pc) || matches!(ins[pc].element, Instruction::Halt | Instruction::PopRet) {
+            for i in 2..NS {
+                if st[i] != 0 {
+                    s7_reported += 1;
+                    push(
+                        "S7",
+                        pc,
+                        format!(
+                            "{} depth is {} at the statement boundary at pc {}",
+                            NAMES[i], st[i], pc
+                        ),
+                    );
+                    break;
+                }
+            }
+        }
+        let mut nx = st;
+        let mut succ: Vec<(usize, bool)> = vec![(pc + 1, true)];
+        match &ins[pc].element {
+            Instruction::PushAToValueStack => nx[0] += 1,
+            Instruction::PopValueStackIntoA => nx[0] -= 1,
+            Instruction::PushRegisters => nx[1] += 1,
+            Instruction::PopRegisters => nx[1] -= 1,
+            Instruction::VarPathName(_) => nx[2] += 1,
+            Instruction::VarPathIndex | Instruction::VarPathProperty(_) | Instruction::CopyVarPathToA => {
+                if nx[2] < 1 {
+                    nx[2] = -1;
+                }
+            }
+            Instruction::CopyAToVarPath | Instruction::PopVarPath | Instruction::PushUnnamedByRef => nx[2] -= 1,
+            Instruction::BeginCollectArguments => nx[3] += 1,
+            Instruction::PopStack | Instruction::AllocateArrayIntoA(_) => nx[3] -= 1,
+            Instruction::PushStack | Instruction::PushStaticStack(_) => {
+                if nx[3] < 1 {
+                    nx[3] = -1;
+                }
+            }
+            Instruction::EnqueueToReturnStack(_) => nx[4] += 1,
+            Instruction::DequeueFromReturnStack => nx[4] -= 1,
+            Instruction::StashFunctionReturnValue(_) => nx[5] += 1,
+            Instruction::UnStashFunctionReturnValue => nx[5] -= 1,
+            Instruction::TrimStacks(f, sd) => {
+                nx[0] = *sd as i32;
+                nx[1] = *f as i32;
+            }
+            Instruction::PushRet(ret) => {
+                // the call: control comes back at `ret` with the depths it left with
+                succ = vec![(*ret, true)];
+            }
+            Instruction::Jump(a) => {
+                succ = match a {
+                    AddressOrLabel::Resolved(t) => vec![(*t, false)],
+                    _ => vec![],
+                };
+            }
+            Instruction::JumpIfFalse(a) => {
+                if let AddressOrLabel::Resolved(t) = a {
+                    succ.push((*t, false));
+                }
+            }
+            Instruction::Halt
+            | Instruction::PopRet
+            | Instruction::Return(_)
+            | Instruction::Resume
+            | Instruction::ResumeNext
+            | Instruction::ResumeLabel(_)
+            | Instruction::Throw(_) => succ = vec![],
+            _ => {}
+        }
+        if let Some(i) = (0..NS).find(|i| nx[*i] < 0) {
+            s7_reported += 1;
+            push(
+                "S7",
+                pc,
+                format!(
+                    "{:?} at pc {} takes from the {} stack, which is empty on a path that reaches it",
+                    ins[pc].element, pc, NAMES[i]
+                ),
+            );
+            continue;
+        }
+        for (t, ft) in succ {
+            if t < n {
+                // a procedure is left through PopRet only
+                if ft && starts[1..].contains(&t) {
+                    continue;
+                }
+                work.push((t, nx, ft));
+            }
+        }
+    }
 }
